@@ -12,7 +12,7 @@ import hashlib
 import itertools
 import os
 
-from ..lab import hi, make_odb, put_raw
+from ..lab import MD5, hi, make_odb, put_raw
 from ..world import World, digest_obj, objects_only, store_snapshot
 from ..xfer import (
     FILE_OID,
@@ -216,6 +216,9 @@ def run_history(hist, init="empty"):
                 fill_store(xw.dest, [TREE_OID["T1"]])
                 delivered.add(TREE_OID["T1"])
                 status(xw.dest, {hi(TREE_OID["T1"])}, index=xw.index, cache_odb=xw.src, jobs=1)
+            if init == "src-lacks-y":
+                # a file listed by T1 is in neither store: T1 can never be completed
+                os.unlink(xw.src.oid_to_path(MD5["y"]))
             for i, op in enumerate(hist):
                 steps += 1
                 before = set(objects_only(store_snapshot(xw.dest.path)))
@@ -345,7 +348,8 @@ def run(ctx):
         "the index invariant is history-based: an id counts as delivered once a transfer of this history "
         "put it into the store; it is evaluated after every library operation (not right after an external "
         "deletion, which only the next indexed operation can notice); histories start from an empty destination "
-        "and index, and from a destination holding T1's directory object alone, already indexed by a status query",
+        "and index, from a destination holding T1's directory object alone, already indexed by a status query, "
+        "and from a source that lacks a file T1 lists (missing on both sides)",
         "canonical state = (objects in the destination, index contents, delivered set); temp files and "
         "timestamps are dropped (no operation of the alphabet observes them)",
     ]
@@ -365,7 +369,7 @@ def run(ctx):
     # (b) BFS
     nodedup = 3 if ctx.tier == "thorough" else 2
     grand = 0
-    for init in ("empty", "orphan-dir-indexed"):
+    for init in ("empty", "orphan-dir-indexed", "src-lacks-y"):
         seen = set()
         frontier = [[]]
         total = 0
